@@ -82,7 +82,7 @@ extern "C" void h_indentation(void) {
    unsigned depth = 1 + vp_pick(3);
    const ipr::Expr* body = lx.make_expr_stmt(*lx.make_id_expr(*w->I[0]));
    for (unsigned i = 0; i < depth; ++i) {
-      unsigned kind = vp_pick(8);
+      unsigned kind = vp_pick(10);
       switch (kind) {
       case 0: { impl::Block* b = lx.make_block(*w->reg); b->add_stmt(*body); b->add_stmt(*lx.make_return(*w->E[0])); body = b; break; }
       case 1: body = lx.make_if(*w->E[0], *body); break;
@@ -91,6 +91,8 @@ extern "C" void h_indentation(void) {
       case 4: { impl::Do* x = lx.make_do(); x->control = w->E[0]; x->stmt = body; body = x; break; }
       case 5: { impl::Switch* x = lx.make_switch(); x->control = w->E[0]; x->stmt = body; body = x; break; }
       case 6: body = lx.make_labeled_stmt(lx.get_label(*w->I[1]), *body); break;
+      case 8: body = lx.make_if(*w->E[0], *lx.make_expr_stmt(*w->E[1]), *body); break;             // nested statement in the else branch (else-if chains)
+      case 9: { impl::For* x = lx.make_for(); x->init = w->E[0]; x->cond = w->E[1]; x->inc = w->E[0]; x->stmt = static_cast<const ipr::Stmt*>(lx.make_expr_stmt(*w->E[1])); impl::Block* b = lx.make_block(*w->reg); b->add_stmt(*x); b->add_stmt(*body); body = b; break; }
       case 7: { impl::Block* b = lx.make_block(*w->reg); b->add_stmt(*body); impl::Handler* h = b->new_handler(*w->I[1], *w->T[0]); h->body().add_stmt(*lx.make_expr_stmt(*w->E[1])); body = b; break; }
       }
    }
